@@ -4,6 +4,12 @@ import ast
 from .model import FuncInfo, ClassInfo, ModuleInfo, PKG
 
 
+GENERIC_METHODS = {'copy', 'get', 'update', 'items', 'keys', 'values', 'append', 'extend', 'insert', 'pop', 'sort',
+                   'index', 'count', 'plot', 'array', 'normalize', 'write', 'read', 'close', 'format', 'strip',
+                   'encode', 'decode', 'replace', 'split', 'join', 'reshape', 'astype', 'sum', 'mean', 'std', 'min',
+                   'max', 'flatten', 'tobytes', 'to', 'resolve'}
+
+
 def _tail(node):
     if isinstance(node, ast.Name):
         return node.id
@@ -64,6 +70,8 @@ def resolve_callee(prog, fi, call):
                 init = r.find_method('__init__')
                 return (init, True) if init else None
         # duck typed: unique method of that name in the package with compatible arity
+        if f.attr in GENERIC_METHODS:
+            return None
         cands = [c.methods[f.attr] for c in prog.classes.values() if f.attr in c.methods]
         if len(cands) == 1 and not cands[0].is_property:
             return cands[0], not cands[0].is_staticmethod
